@@ -6,6 +6,8 @@ inductive Ty where
   | unit | bool | int | nat | mutez | timestamp | string | bytes | address | chainId
   /-- `never` (no values), `key_hash` and `key` (opaque base58 text, like `address`) -/
   | never | keyHash | key
+  /-- `signature` (opaque base58 text) -/
+  | signature
   /-- `contract t` (a handle on an entrypoint of type `t`) and `operation` -/
   | contract (t : Ty) | operation
   | option (t : Ty)
@@ -26,7 +28,7 @@ mutual
     /-- strings are ASCII (pytezos asserts it): list of character codes -/
     | str (s : List Nat)
     | bytes (b : List Nat)
-    /-- `address` / `chain_id` / `key_hash` / `key`: opaque base58 text -/
+    /-- `address` / `chain_id` / `key_hash` / `key` / `signature`: opaque base58 text -/
     | atom (t : Ty) (s : List Nat)
     | pair (a b : Val)
     | some (v : Val)
@@ -76,6 +78,8 @@ mutual
     | PACK
     /- extension 3, phase 1: deserialization -/
     | UNPACK (t : Ty)
+    /- phase 3: signature verification (the verification function is a parameter: `Hashes.checkSig`) -/
+    | CHECK_SIGNATURE
 end
 
 instance : Inhabited Val := ⟨.unit⟩
@@ -93,8 +97,13 @@ structure Hashes where
   /-- HASH_KEY: base58 text of a public key ↦ base58 text of its hash (`Key.from_encoded_key(k).public_key_hash()`:
   Base58Check decoding, BLAKE2b with a 20-byte digest, Base58Check encoding under the prefix of the curve) -/
   hashKey : List Nat → List Nat := fun _ => []
+  /-- CHECK_SIGNATURE: base58 text of a public key, base58 text of a signature, message ↦ does the signature verify
+  (`Key.from_encoded_key(k).verify(signature=s, message=m)` does not raise `ValueError`).  A parameter like the hash functions:
+  every theorem holds for every choice; the run instantiates it with a table of what `Key.verify` answers on the triples that
+  occur in the program (signature verification itself is property C07's subject) -/
+  checkSig : List Nat → List Nat → List Nat → Bool := fun _ _ _ => false
 
-instance : Inhabited Hashes := ⟨⟨fun _ => [], fun _ => [], fun _ => [], fun _ => [], fun _ => [], fun _ => []⟩⟩
+instance : Inhabited Hashes := ⟨⟨fun _ => [], fun _ => [], fun _ => [], fun _ => [], fun _ => [], fun _ => [], fun _ _ _ => false⟩⟩
 
 /-- execution environment (`ExecutionContext` getters) -/
 structure Env where
